@@ -374,6 +374,16 @@ class Taint:
     def __init__(self, prog, f, cfg):
         self.prog, self.f, self.cfg = prog, f, cfg
         self.cd = cfg.control_deps()
+        # live views and plain aliases of a collection follow it: `order = d.keys()` (not list(d)) sees every later d.pop(...)
+        self.alias = {}
+        for n_ in f.body_nodes():
+            if isinstance(n_, ast.Assign) and len(n_.targets) == 1 and isinstance(n_.targets[0], ast.Name):
+                v_ = n_.value
+                if isinstance(v_, ast.Call) and isinstance(v_.func, ast.Attribute) and v_.func.attr in ("keys", "values", "items") and not v_.args \
+                        and isinstance(v_.func.value, ast.Name):
+                    self.alias.setdefault(n_.targets[0].id, set()).add(v_.func.value.id)
+                elif isinstance(v_, ast.Name):
+                    self.alias.setdefault(n_.targets[0].id, set()).add(v_.id)
         init = (frozenset(), frozenset())
         self.instate, self.outstate = cfg.forward(init, self.transfer, self.join)
 
@@ -461,13 +471,15 @@ class Taint:
                         D.add(c)
                     if argt_m or self._tainted_control(n, D, M):
                         M.add(c)
+        for v_, srcs in self.alias.items():
+            if srcs & M:
+                M.add(v_)
         return (frozenset(D), frozenset(M))
 
 
 # --------------------------------------------------------- R-C10-seed-identity
-def seed_identity(ctx, tool, cfg, info):
+def seed_identity(ctx, tool, cfg, info, R="R-C10-seed-identity"):
     prog = ctx.prog
-    R = "R-C10-seed-identity"
     ds = prog.cls("command_line._FeatureProcessorDataset")
     init = prog.own_method(ds, "__init__")
     g = prog.own_method(ds, "__getitem__")
